@@ -13,6 +13,7 @@ SELS = [
     (["D", "gen", "g"], "a"), (["D", "gen"], "x"), (["gen"], "x"), (["gen2"], "i"), (["D"], "d"),
     (["D", "gen2", "g"], "a"), (["D"], "r"), (["gen4"], "x"), (["gen4", "g"], "a"), (["gen5", "g"], "a"), (["gen5"], "r"), (["gen6", "g"], "a"), (["gen6", "g"], "a"),
     (["gen7"], "w"), (["gen7", "gen2", "g"], "a"), (["gen7", "gen2"], "i"),
+    (["pump", "g"], "a"), (["pump", "g"], "a"), (["pump"], "q"),
 ]
 YIELD_FROM_SELS = [(["gen3", "g"], "a"), (["gen3", "gen2", "g"], "a"), (["gen3"], "z"), (["gen3", "gen2"], "i")]
 
@@ -63,10 +64,11 @@ def gen(rng, tier, quarantine=()):
         ops.append({"op": "mk", "id": pid, "kind": kinds[pid], "sels": [mk_sel(chain, focus)],
                     "inv": "C09.no_foreign_events"})
     if "overlay" in kinds.values():
-        for f in ("g", "gen", "gen2", "gen3", "gen4", "gen5", "gen6", "gen7", "D"):
+        for f in ("g", "gen", "gen2", "gen3", "gen4", "gen5", "gen6", "gen7", "D", "pump"):
             ops.insert(0, {"op": "tool", "fn": f, "how": "inplace"})
     pending = list(kinds)
     live = []
+    pumped = False
     gens = []
     ng = 0
     # most runs start with an overlay active and a generator under way
@@ -77,12 +79,19 @@ def gen(rng, tier, quarantine=()):
     if rng.random() < 0.7:
         ops.append({"op": "gen_new", "gen": "g0", "fn": rng.choice(["gen", "gen2", "gen4", "gen5", "gen6", "gen7", "gen7"]), "nargs": 1,
                     "cycle": rng.random() < 0.25})
+        if ops[-1]["fn"] in ("gen", "gen2") and not ops[-1]["cycle"] and rng.random() < 0.6:
+            # ... which another function advances from inside its own calls, now and then
+            ops[-1]["as_global"] = "GEN"
+            pumped = True
         gens.append("g0")
         ng = 1
         ops.append({"op": "gen_next", "gen": "g0", "tape": gen_tape(rng, 6, hi=12, odd=0.6), "faults": {}})
     nsteps = rng.randint(5, 14) if tier == "quick" else rng.randint(8, 30)
     for _ in range(nsteps):
         r = rng.random()
+        if pumped and "g0" in gens and rng.random() < 0.3:
+            ops.append({"op": "call", "fn": "pump", "nargs": 1, "tape": gen_tape(rng, 8, hi=12, odd=0.6), "faults": {}})
+            continue
         if r < 0.18 and pending:
             pid = pending.pop(0)
             ops.append({"op": "enter", "id": pid})
